@@ -788,9 +788,16 @@ func (env *Env) specMethod(recv Val, mname string) Val {
 	if resT == nil {
 		userErr("no method %s in %s", mname, recv.T)
 	}
-	res := fc.freshVal("spec_"+mname, resT)
+	// result as one case-split term over the dynamic type: two evaluations on the same receiver and heap are
+	// syntactically equal; unknown dynamic types fall back to an uninterpreted function of (tag, payload)
+	ls := layout(resT)
+	res := Val{T: resT, L: make([]string, len(ls))}
+	for k, lf := range ls {
+		fname := qsym(fmt.Sprintf("specdef!%s!%s!%d", typeKey(recv.T), mname, k))
+		fc.declareFunOnce(fname, "("+SortTag+" (_ BitVec 64)) "+lf.Sort)
+		res.L[k] = app(fname, recv.L[0], recv.L[1])
+	}
 	var facts []string
-	facts = append(facts, fc.wfFacts(res))
 	for _, kt := range fc.eng.knownTypes() {
 		if !types.Implements(kt, iface) {
 			continue
@@ -810,12 +817,12 @@ func (env *Env) specMethod(recv Val, mname string) Val {
 		rv := fc.unboxIface(env.st, recv, kt)
 		r := fc.inline(fn, []Val{rv}, nil, token.NoPos, resT)
 		fc.cur = saved
-		var eqs []string
 		for k := range r.L {
-			eqs = append(eqs, eq(res.L[k], r.L[k]))
+			res.L[k] = ite(cond, r.L[k], res.L[k])
 		}
-		facts = append(facts, implies(cond, and(eqs...)))
 	}
+	res = fc.nameVal(fc.fresh("spec_"+mname), res)
+	facts = append(facts, fc.wfFacts(res))
 	if fc.cur != nil {
 		fc.cur.assume(and(facts...))
 	}
